@@ -659,10 +659,20 @@ def validate_and_report(res, spec_dir, module, cfg, execs, tag, describe, batch=
 
 
 
-def first_unexplained(spec_dir, module, cfg, trace, tag='fu'):
+def first_unexplained(spec_dir, module, cfg, trace, tag='fu', linear=False):
     """index of the first event of `trace` that no behaviour of the trace spec explains (bisect over prefixes), or None"""
     evs = [e for e in trace if not str(e.get('e', '')).startswith('#')]
     os.makedirs(os.path.join(BUILD, 'traces'), exist_ok=True)
+    if linear:
+        # a trace spec without internal (unlogged) steps has exactly one state per explained event: the number of distinct states of the
+        # rejecting run is the length of the longest explained prefix + 1 - one TLC run instead of a bisection
+        fn = os.path.join(BUILD, 'traces', '%s-%d-lin.ndjson' % (tag, os.getpid()))
+        with open(fn, 'w') as f:
+            for ev in evs:
+                f.write(json.dumps(ev, separators=(',', ':')) + '\n')
+        a, r = validate_trace_file(spec_dir, module, cfg, fn)
+        os.unlink(fn)
+        return None if a else min(max(r.distinct - 1, 0), len(evs) - 1)
 
     def ok(n):
         fn = os.path.join(BUILD, 'traces', '%s-%d-prefix.ndjson' % (tag, os.getpid()))
